@@ -82,3 +82,96 @@ Proof.
   assert (E : forall l, chars_of (str_of l) = l) by (induction l as [|c l IH]; [reflexivity|cbn; now rewrite IH]). rewrite E.
   apply (tokenize_go_render toks Hw); [|lia]. clear -Hw. induction Hw as [|t toks Ht _ IH]; constructor; [|exact IH]. destruct Ht; discriminate.
 Qed.
+
+(* ---- literals with a base prefix (0x, 0X, 0b, 0B) and integer suffixes ---- *)
+(* integer suffixes the tokenizer swallows: u, l, ll in either order and either case *)
+Definition suffixes : list (list ascii) :=
+  map chars_of [""; "u"; "l"; "ul"; "ull"; "ll"; "lu"; "llu"; "U"; "L"; "UL"; "ULL"; "LL"; "LU"; "LLU"; "uL"; "Ul"; "uLL"; "lU"; "Lu"].
+
+(* a token as written and as read: the suffix of a hexadecimal / binary literal is dropped *)
+Inductive wf_wtok : list ascii -> list ascii -> Prop :=
+| WwPlain t : wf_tok t -> wf_wtok t t
+| WwPrefixed x h hs sfx : is_in x hexbin = true -> forallb is_hexdigit (h :: hs) = true -> In sfx suffixes ->
+    wf_wtok ("0"%char :: x :: h :: hs ++ sfx) ("0"%char :: x :: h :: hs)
+| WwDecimalSuffixed d t sfx : is_digit d = true -> forallb is_digit t = true -> Ascii.eqb d "0"%char = false -> In sfx suffixes ->
+    wf_wtok (d :: t ++ sfx) (d :: t).
+
+Lemma hexdigit_not_hexbin_sp : is_hexdigit sp = false. Proof. reflexivity. Qed.
+
+Lemma span_hex_sfx hs sfx rest : forallb is_hexdigit hs = true -> In sfx suffixes ->
+  span is_hexdigit (hs ++ sfx ++ sp :: rest) = (hs, sfx ++ sp :: rest).
+Proof.
+  intros Hh Hs. induction hs as [|c hs IH]; cbn [app].
+  - unfold suffixes in Hs. cbn in Hs. repeat (destruct Hs as [<-|Hs]; [reflexivity|]). contradiction.
+  - cbn [forallb] in Hh. apply andb_prop in Hh as [Hc Hh]. cbn [span]. rewrite Hc, (IH Hh). reflexivity.
+Qed.
+
+Lemma suffix_consumed sfx rest : In sfx suffixes ->
+  (if starts uU (sfx ++ sp :: rest) then opt lL (opt lL (opt uU (sfx ++ sp :: rest)))
+   else if starts lL (sfx ++ sp :: rest) then opt uU (opt lL (opt lL (sfx ++ sp :: rest)))
+   else sfx ++ sp :: rest) = sp :: rest.
+Proof.
+  intros Hs. unfold suffixes in Hs. cbn in Hs. repeat (destruct Hs as [<-|Hs]; [reflexivity|]). contradiction.
+Qed.
+
+Lemma lex_prefixed x h hs sfx rest : is_in x hexbin = true -> forallb is_hexdigit (h :: hs) = true -> In sfx suffixes ->
+  lex_number ("0"%char :: x :: (h :: hs) ++ sfx ++ sp :: rest) = Some (str_of ("0"%char :: x :: h :: hs), sp :: rest).
+Proof.
+  intros Hx Hh Hs. unfold lex_number. rewrite Hx. rewrite (span_hex_sfx (h :: hs) sfx rest Hh Hs).
+  rewrite (suffix_consumed sfx rest Hs). cbn [app]. rewrite Hx. cbn [Ascii.eqb Bool.eqb andb negb]. reflexivity.
+Qed.
+
+Lemma lex_decimal_suffixed d t sfx rest : is_digit d = true -> forallb is_digit t = true -> Ascii.eqb d "0"%char = false -> In sfx suffixes ->
+  lex_number (d :: t ++ sfx ++ sp :: rest) = Some (str_of (d :: t), sp :: rest).
+Proof.
+  intros Hd Ht Hz Hs.
+  assert (Hhex : forallb is_hexdigit t = true) by (apply (forallb_impl is_digit); [intros y Hy; apply (digit_facts y Hy)|exact Ht]).
+  unfold lex_number. destruct t as [|c t'].
+  - cbn [app].
+    assert (E : match sfx ++ sp :: rest with c :: r' => if is_in c hexbin then ([d; c], r') else ([d], sfx ++ sp :: rest) | [] => ([d], []) end = ([d], sfx ++ sp :: rest)).
+    { unfold suffixes in Hs. cbn in Hs. repeat (destruct Hs as [<-|Hs]; [reflexivity|]). contradiction. }
+    rewrite E. generalize (span_hex_sfx [] sfx rest eq_refl Hs); cbn [app]; intros ->. rewrite (suffix_consumed sfx rest Hs). reflexivity.
+  - cbn [app forallb] in *. apply andb_prop in Ht as [Hc Ht']. destruct (digit_facts c Hc) as [_ [Hc2 _]]. rewrite Hc2.
+    change (c :: t' ++ sfx ++ sp :: rest) with ((c :: t') ++ sfx ++ sp :: rest).
+    rewrite (span_hex_sfx (c :: t') sfx rest Hhex Hs). rewrite (suffix_consumed sfx rest Hs).
+    cbn [app]. destruct t' as [|c2 t'']; rewrite ?Hc2, ?Hz; reflexivity.
+Qed.
+
+Lemma wtoken_step w r : wf_wtok w r -> forall f rest acc,
+  tokenize_go (S (S f)) (w ++ sp :: rest) acc = tokenize_go f rest (str_of r :: acc).
+Proof.
+  intros H f rest acc. destruct H as [t Ht|x h hs sfx Hx Hh Hs|d t sfx Hd Ht Hz Hs].
+  - apply token_step; exact Ht.
+  - replace (("0"%char :: x :: h :: hs ++ sfx) ++ sp :: rest) with ("0"%char :: x :: (h :: hs) ++ sfx ++ sp :: rest)
+      by (cbn [app]; now rewrite <- app_assoc).
+    cbn [tokenize_go]. replace (is_in "0"%char op_chars) with false by reflexivity. replace (is_digit "0"%char) with true by reflexivity.
+    rewrite (lex_prefixed x h hs sfx rest Hx Hh Hs). apply skip_blank.
+  - replace ((d :: t ++ sfx) ++ sp :: rest) with (d :: t ++ sfx ++ sp :: rest) by (cbn [app]; now rewrite <- app_assoc).
+    destruct (digit_facts d Hd) as [H1 _]. cbn [tokenize_go]. rewrite H1, Hd.
+    rewrite (lex_decimal_suffixed d t sfx rest Hd Ht Hz Hs). apply skip_blank.
+Qed.
+
+Definition render_w (toks : list (list ascii * list ascii)) : list ascii := List.concat (map (fun t => fst t ++ [sp]) toks).
+
+Lemma tokenize_go_render_w : forall toks, Forall (fun t => wf_wtok (fst t) (snd t)) toks ->
+  forall f acc, (length (render_w toks) <= f)%nat -> tokenize_go f (render_w toks) acc = Some (rev acc ++ map (fun t => str_of (snd t)) toks).
+Proof.
+  induction toks as [|[w r] toks IH]; intros Hw f acc Hf.
+  - cbn [render_w map List.concat]. rewrite app_nil_r. destruct f; reflexivity.
+  - inversion Hw as [|? ? Ht Hw']; subst. cbn [fst snd] in Ht.
+    unfold render_w in *. cbn [map List.concat fst snd] in *. rewrite <- app_assoc in *. cbn [app] in *.
+    rewrite app_length in Hf. cbn [length] in Hf.
+    assert (Hne : w <> []) by (destruct Ht as [t Ht| |]; [destruct Ht|..]; discriminate).
+    destruct w as [|c w]; [contradiction|]. cbn [length] in Hf.
+    destruct f as [|[|f]]; try lia.
+    rewrite (wtoken_step (c :: w) r Ht f _ acc). rewrite IH; [|exact Hw'|lia]. cbn [rev map snd]. now rewrite <- app_assoc.
+Qed.
+
+(* tokens written with literal prefixes and integer suffixes are read back as the tokens without the suffixes *)
+Theorem tokenize_render_w toks : Forall (fun t => wf_wtok (fst t) (snd t)) toks ->
+  tokenize (str_of (render_w toks)) = Some (map (fun t => str_of (snd t)) toks).
+Proof.
+  intros Hw. unfold tokenize.
+  assert (E : forall l, chars_of (str_of l) = l) by (induction l as [|c l IH]; [reflexivity|cbn; now rewrite IH]). rewrite E.
+  apply (tokenize_go_render_w toks Hw); lia.
+Qed.
